@@ -37,6 +37,8 @@ def main(argv=None):
             'helpers_expanded': sorted({g for _f, g in getattr(repo, 'inlined_sites', [])}),
             'helpers_removed_from_index': list(getattr(repo, 'inlined_helpers', [])),
             'match_statements_rewritten': getattr(repo, 'n_match_desugared', 0),
+            'comprehensions_over_constant_tables_unrolled': getattr(repo, 'n_unrolled', 0),
+            'dict_splats_spliced': getattr(repo, 'n_spliced', 0),
             'renamed_private_helpers_followed': {old: f.fq for old, f in sorted(getattr(repo, 'renamed', {}).items())}}
         mod.run(chk, repo, args.tier)
         from . import generic
